@@ -269,6 +269,12 @@ def _large_cases(tier):
     for k, (n, m) in enumerate(sizes):
         for ep, en in ((0, 0), (3, 2)):
             yield dict(n=n, m=m, ep=ep, en=en, k=k)
+    # classes of a few thousand scores whose ranges do not overlap (either way round), and one array object
+    # serving as both classes (a chance-level baseline)
+    for n, m, arr in ((1500, 1200, "pos-below"), (1200, 1500, "neg-below"), (2500, 2500, "pos-below"),
+                      (2000, 2000, "shared")):
+        for ep, en in ((0, 0), (3, 2)):
+            yield dict(n=n, m=m, ep=ep, en=en, k=0, arr=arr)
 
 
 def check_large(case):
@@ -279,6 +285,13 @@ def check_large(case):
     n, m, ep, en = case["n"], case["m"], case["ep"], case["en"]
     pos = 0.5 + 2.0 * np.arange(n)
     neg = 1.25 + 2.0 * np.arange(m) - (m - n)  # overlapping ranges, all values distinct
+    arr = case.get("arr", "overlap")
+    if arr == "pos-below":
+        neg = pos[-1] + 0.75 + 2.0 * np.arange(m)
+    elif arr == "neg-below":
+        neg = pos[0] - 0.75 - 2.0 * np.arange(m)[::-1]
+    elif arr == "shared":
+        neg = pos  # the very same array object in both roles
     for sc, ec in CONFIGS:
         o = Scores(pos, neg, nb_easy_pos=ep, nb_easy_neg=en, score_class=sc, equal_class=ec, is_sorted=True)
         if case.get("k", 0) % 2 == 1:
@@ -301,8 +314,10 @@ def check_large(case):
             c = np.asarray(getattr(o, mt)(t), dtype=float)
             err = np.abs(c - rs) * Nm
             j = int(np.argmax(err))
-            require(err[j] <= 1.0 + 1e-3, "ts:roundtrip",
-                    lambda: f"n={n} m={m} ep={ep} en={en} metric={mt} config={sc}/{ec} r={rs[j]!r}: threshold "
+            # (one array in both roles: every value is a tie across the classes, TOPR / TONR move in steps of two)
+            step = 2.0 if arr == "shared" and mt in ("topr", "tonr") else 1.0
+            require(err[j] <= step + 1e-3, "ts:roundtrip",
+                    lambda: f"n={n} m={m} ep={ep} en={en} arrangement={arr} metric={mt} config={sc}/{ec} r={rs[j]!r}: threshold "
                             f"{t[j]!r} gives {c[j]!r}, off by {err[j]:.3f} samples of 1/{Nm}")
             d = np.diff(t)
             incr = (mt in INCREASING) == (sc == "pos")
@@ -316,7 +331,7 @@ def check_large(case):
                 cc = np.asarray(getattr(o, mt)(tt), dtype=float)
                 e2 = np.abs(cc - grid) * Nm
                 j2 = int(np.argmax(e2))
-                require(tt.shape == grid.shape and e2[j2] <= 1.0 + 1e-3, "ts:roundtrip",
+                require(tt.shape == grid.shape and e2[j2] <= step + 1e-3, "ts:roundtrip",
                         lambda: f"n={n} m={m} metric={mt} config={sc}/{ec}: in one call with {L} unsorted targets, "
                                 f"element {j2} (r={grid[j2]!r}) got threshold {tt[j2]!r} with {mt}={cc[j2]!r}, off by "
                                 f"{e2[j2]:.1f} samples")
